@@ -13,7 +13,9 @@ MODES = ("uni", "bias25", "bias75", "const0", "const1", "alt", "step", "longrun"
 def run(tier):
     from checks import statrun
     statrun.run_family(PROP, FAMILY, tier, SIZES_Q, SIZES_T, MODES, l1=(8, 10, 12),
-                       l3_calls=lambda n: [{"t": "mono"}, {"t": "block", "m": 10000 if n >= 1000000 else 1000, "auto": True}, {"t": "block", "m": 100, "auto": False},
+                       l3_calls=lambda n: [{"t": "mono"}, {"t": "block", "m": 10000 if n >= 1000000 else 1000, "auto": True}, {"t": "block", "m": 100, "auto": False}] +
+                                          # explicit block lengths down to 2 (hundreds of thousands of blocks: shape a = N/2 far above any other caller's)
+                                          ([{"t": "block", "m": 2, "auto": False}, {"t": "block", "m": 4, "auto": False}, {"t": "block", "m": 7, "auto": False}] if n in (1000003, 1048576, 98304) else []) + [
                                            {"t": "poker", "m": 4}, {"t": "poker", "m": 8}, {"t": "poker", "m": 2},
                                            {"t": "serial", "m": 2}, {"t": "serial", "m": 3}, {"t": "serial", "m": 5}, {"t": "serial", "m": 7},
                                            {"t": "apen", "m": 2}, {"t": "apen", "m": 5}, {"t": "apen", "m": 7}],
